@@ -50,8 +50,9 @@ def r1(ctx):
             dt = pat.inline(ctx, f, d).replace(" ", "")
             holder = _holder(ctx, f, c.args[0]) if c.args else None
             if holder is None:
-                ctx.bad("C12.R1", f, c, "cannot determine which fiber holds "
-                        "the tested payload `%s`" % text(c.args[0]))
+                ctx.errors.append("C12.R1: %s: cannot determine which fiber "
+                                  "holds the payload `%s` tested at line %d"
+                                  % (f.key, text(c.args[0]), c.lineno))
                 continue
             if dt == "%s.getDefault()" % holder:
                 ctx.ok("C12.R1", f, c, "tested against the default of the "
@@ -86,9 +87,17 @@ def r1(ctx):
 
 def _holder(ctx, f, arg):
     """Text of the fiber whose payload list `arg` comes from."""
+    if isinstance(arg, ast.Subscript) and isinstance(arg.value, ast.Attribute) \
+            and arg.value.attr == "payloads":
+        return text(arg.value.value)
     if not isinstance(arg, ast.Name):
         return None
     facts, is_param = ctx.ty.facts_at(f, arg.id, arg)
+    for fa in facts:
+        if fa.kind == "expr" and isinstance(fa.value, ast.Subscript) and \
+                isinstance(fa.value.value, ast.Attribute) and \
+                fa.value.value.attr == "payloads" and len(facts) == 1:
+            return text(fa.value.value.value)
     if is_param and not facts:
         # lambda p: ... mapped over X.payloads
         node = f.node
